@@ -444,13 +444,19 @@ def replay(ctx: Ctx, obj: dict):
 LEVEL = {
     "text": "Lean 4 theorems over an executable model of dns/renderer.py (_track_size/_rollback, reserve/release_reserved, "
             "add_question/add_rrset/add_opt with the padding arithmetic, write_header) and Message.to_wire (clamp to [512, 65535], "
-            "OPT/TSIG reserves, prefer_truncation): a rendering never exceeds the clamped limit; a failed add restores buffer and "
-            "compression table exactly; with prefer_truncation the result is exactly the untruncated rendering of the message cut to "
-            "its first k record sets with TC set iff the first dropped set lies before ADDITIONAL; with padding the length is a "
-            "multiple of the block whenever the TSIG owner is not compressed (the unchanged code's defect D07 is the proved "
-            "counter-example otherwise). Tied to the code by correspondence at every limit and every pad block.",
+            "OPT/TSIG reserves, prefer_truncation): never_exceeds — a rendering is never longer than the clamped limit, for all messages, "
+            "limits and both modes; rollback_exact — an add that overflows leaves buffer, compression table and counts exactly as before "
+            "(so no pointer into removed bytes), in every reachable state; truncation_prefix — with prefer_truncation the result is byte for "
+            "byte the untruncated rendering of the message cut to its first k record sets (whole sets, section order, same OPT/TSIG) with TC "
+            "added iff the first dropped set lies before ADDITIONAL; result_parses_partial — that result parses to that prefix (class of "
+            "C03.parse_render_partial); padding_multiple_partial — with padding the length is a multiple of the block for every message "
+            "without TSIG; padding_counterexample_D07 — the shipped code's failure with a compressible TSIG key name (121 mod 128), proved "
+            "in the model. Tied to the code by correspondence at every limit from 505 to len+2, every pad block in {1..64,128,468} and "
+            "step-by-step Renderer traces.",
     "note": "Trusted: Lean kernel + propext/Classical.choice/Quot.sound; the statements in lean/Props/C08.lean; the correspondence "
-            "harness and its generators; harness/extract_C03.py. The TSIG MAC is abstract and fixed-size.",
-    "technique": "Lean 4 proof (invariant over the rendering fold) + model-vs-implementation correspondence at every limit",
+            "harness and its generators; harness/extract_C03.py. The TSIG MAC is abstract and fixed-size. Padding with TSIG is tie-only "
+            "(known finding D07 on the unchanged tree).",
+    "technique": "Lean 4 proof (invariant over the rendering fold; exact-rollback lemma; prefix characterisation) + "
+                 "model-vs-implementation correspondence at every limit",
     "design_ref": "DESIGN.md §7 C08",
 }
